@@ -35,7 +35,7 @@ from rtamt.syntax.node.ltl.constant import Constant
 from rtamt.syntax.node.ltl.previous import Previous
 
 from rtamt.exception.exception import RTAMTException
-from rtamt.pastifier.stl.horizon import StlHorizon, bounds_in_default_unit
+from rtamt.pastifier.stl.horizon import StlHorizon, bounds_in_default_unit, period_in_default_unit
 
 
 class StlPastifier(LtlPastifier, StlAstVisitor):
@@ -412,12 +412,12 @@ class StlPastifier(LtlPastifier, StlAstVisitor):
         return node
 
     def visitNext(self, node, *args, **kwargs):
-        horizon = args[0] - 1
+        horizon = args[0] - period_in_default_unit(self.ast)
         child_node = self.visit(node.children[0], horizon)
         return child_node
 
     def visitStrongNext(self, node, *args, **kwargs):
-        horizon = args[0] - 1
+        horizon = args[0] - period_in_default_unit(self.ast)
         child_node = self.visit(node.children[0], horizon)
         return child_node
 
